@@ -204,6 +204,9 @@ def supported(s: Shape) -> Optional[str]:
         return "one trait generic at most"
     if s.extra.get("type_tag") and s.asyncness != "sync":
         return "type tags only generated for sync methods"
+    if s.extra.get("trait_lt") and (s.asyncness != "sync" or "ref_str" not in s.params
+                                    or any(k.generic == "trait" for k in kinds)):
+        return "trait-level lifetimes only generated for sync methods with a &str parameter and no trait type generic"
     if s.named_self_lifetime and s.receiver == "mut" and s.asyncness == "sync" and s.ret in ("self_mut", "u32", "unit"):
         pass  # `fn m<'s>(&'s mut self, ..) -> &'s mut u32`
     elif s.named_self_lifetime and (s.receiver != "ref" or s.asyncness != "sync"):
@@ -402,9 +405,14 @@ def render_trait(s: Shape, idx: int, trait_name="Tr", method="m", unmock_attr=""
             generics.append(f"T{i}: std::fmt::Debug + Clone + Send + Sync + 'static")
     gen = f"<{', '.join(generics)}>" if generics else ""
     trait_gen = "<G: std::fmt::Debug + Clone + Send + Sync + 'static>" if any(k.generic == "trait" for k in kinds) else ""
+    if s.extra.get("trait_lt"):
+        # a lifetime parameter of the *trait*, used by a borrowed parameter
+        trait_gen = "<'t>" if not trait_gen else "<'t, " + trait_gen[1:]
     params = []
     for i, k in enumerate(kinds):
         sig = k.sig.replace("{i}", str(i))
+        if s.extra.get("trait_lt") and k.name == "ref_str":
+            sig = "&'t str"
         if k.name == "ref_u32":
             sig = sig.replace("{L}", "'a " if s.ret == "param_ref" and i == s.params.index("ref_u32") else "")
         params.append(f"p{i}: {sig}")
@@ -903,6 +911,11 @@ def core_shapes_forward():
     for r in ["ref", "mut", "owned"]:
         for params in ([], ["u32"], ["gen_impl"], ["ref_str", "gen_impl"], ["gen_method", "gen_impl"], ["gen_method"]):
             shapes.append(Shape(r, list(params), "u32", extra={"type_tag": True}))
+    # a lifetime parameter on the trait, used in a parameter type
+    for r in ["ref", "mut", "owned"]:
+        for params in (["ref_str"], ["u32", "ref_str", "mut_u32"], ["ref_str", "ref_str"]):
+            for ret in ("u32", "string"):
+                shapes.append(Shape(r, list(params), ret, extra={"trait_lt": True}))
     # named self lifetime
     for params in (["u32"], ["ref_str", "mut_u32"], []):
         for ret in ("self_ref", "u32", "self_str"):
@@ -932,6 +945,8 @@ def random_shape(rng: random.Random):
                   api=rng.choice(APIS), named_self_lifetime=rng.random() < 0.1)
         if s.asyncness == "sync" and rng.random() < 0.12:
             s.extra = {"type_tag": True}
+        elif s.asyncness == "sync" and "ref_str" in s.params and rng.random() < 0.3:
+            s.extra = {"trait_lt": True}
         if supported(s) is None:
             return s
     raise RuntimeError("no supported shape found")
